@@ -1,5 +1,5 @@
 """C18: RCU lists -- readers concurrent with one updater always see a consistent list (rculist.h, rcuhlist.h)."""
-import os, shutil
+import os, shutil, glob, json
 import vlib
 from vlib import *
 import conc
@@ -37,7 +37,7 @@ def rcl_program(sc):
 
 RCL = {
     "spec": "RcuList", "driver": "d_rculist.c", "trace": "RcuListTrace",
-    "invariants": ["NoFreedAccess", "Initialised", "InOrder", "OnlyPresent", "Complete", "Terminates"],
+    "invariants": ["NoFreedAccess", "Initialised", "InOrder", "OnlyPresent", "Complete", "Terminates", "MemConsistent"],
     "mc_invariants": ["DeadlockFree"], "constraints": ["SBBound"],
     "consts": lambda sc: {"Threads": tla(set(sc["threads"])), "Prog": tla_fun(full_ops(sc)), "SBMax": str(sc.get("sbmax", 2)),
                           "Kind": tla(sc["kind"]), "InitList": tla(list(sc["init"])), "PlainBuf": "TRUE"},
@@ -46,28 +46,65 @@ RCL = {
     "trace_consts": {"PlainBuf": "FALSE"},
     "program": rcl_program,
     "normalize": {"extra_fields": ("m",)},
-    "pct_len": 60,
+    "pct_len": 60, "heap": "4g",
 }
 
-QUICK = ["rculist_adddel", "rculist_repl", "rculist_tail", "rculist_hlist", "rculist_hdel"]
-THOROUGH = QUICK + ["rculist_big", "rculist_hbig"]
+# schedule generation for tso=1: the TSO instance the runtime can follow (plain stores not delayed)
+RCL_PF = dict(RCL)
+RCL_PF["consts"] = lambda sc: dict(RCL["consts"](sc), PlainBuf="FALSE")
+RCL_PF["variant"] = "_pf"
+
+QUICK = ["rculist_adddel", "rculist_repl", "rculist_tail", "rculist_hlist"]
+THOROUGH = QUICK + ["rculist_hdel", "rculist_free2", "rculist_sb6", "rculist_big", "rculist_hbig"]
+
+
+def _strip(o, tagp):
+    """remove the per-process suffix from every string of a JSON-like value"""
+    if isinstance(o, str): return o.replace(tagp, "")
+    if isinstance(o, list): return [_strip(x, tagp) for x in o]
+    if isinstance(o, dict): return {k: _strip(v, tagp) for k, v in o.items()}
+    return o
 
 
 def run_scenarios(ctx, comp, scenarios, nseeds, nsim, mc_timeout):
-    wd = os.path.join(ctx.outdir, "work"); shutil.rmtree(wd, ignore_errors=True); os.makedirs(wd)
-    exe = build_driver(comp["driver"][:-2], comp["driver"], tag=ctx.pid + "_" + comp["driver"][:-2])
+    # Several checks of this property may run at the same time (e.g. against scratch copies of the library selected with
+    # VERIF_REPO): everything this run generates -- driver build, work files, generated modules, TLC metadirs -- carries a
+    # per-process suffix and is removed at the end, so that concurrent runs never read each other's binaries or traces.
+    tagp = "_p%d" % os.getpid()
+    wd = os.path.join(ctx.outdir, "work" + tagp); shutil.rmtree(wd, ignore_errors=True); os.makedirs(wd)
+    btag = ctx.pid + "_" + comp["driver"][:-2] + tagp
+    try:
+        exe = build_driver(comp["driver"][:-2], comp["driver"], tag=btag)
+        _run_scenarios(ctx, comp, scenarios, nseeds, nsim, mc_timeout, tagp, wd, exe)
+    finally:
+        shutil.rmtree(wd, ignore_errors=True)
+        shutil.rmtree(os.path.join(vlib.BUILD, btag), ignore_errors=True)
+        for pat in (os.path.join(vlib.GEN, "*%s*" % tagp), os.path.join(vlib.OUT, "tlc", "*%s*" % tagp)):
+            for f in glob.glob(pat):
+                if os.path.isdir(f): shutil.rmtree(f, ignore_errors=True)
+                else: os.unlink(f)
+        # reports refer to scenarios by their real names (needed by --replay)
+        ctx.samples = _strip(ctx.samples, tagp); ctx.configs = _strip(ctx.configs, tagp); ctx.notes = _strip(ctx.notes, tagp)
+        for v in ctx.violations:
+            v["what"] = v["what"].replace(tagp, "")
+            mp = os.path.join(v["replay"], "meta.json")
+            if os.path.exists(mp):
+                m = _strip(json.load(open(mp)), tagp); json.dump(m, open(mp, "w"), indent=1)
+
+
+def _run_scenarios(ctx, comp, scenarios, nseeds, nsim, mc_timeout, tagp, wd, exe):
     only = os.environ.get("VERIF_SCEN")
     for scn in scenarios:
         if only and scn not in only.split(","):
             continue
         if len(ctx.violations) >= conc.MAXV:
             break
-        sc = load_scenario(scn)
+        sc = load_scenario(scn); name = sc["name"]; sc = dict(sc, name=name + tagp)
         # 1. TLC: full x86-TSO instance (every updater store buffered), all C18 invariants
         r = conc.model_check(ctx, comp, sc, timeout=mc_timeout)
-        log("  [TLC] %s: %d distinct states, %.0fs, %s" % (sc["name"], r.distinct, r.wall, "ok" if r.ok else (r.violation or r.error)))
+        log("  [TLC] %s: %d distinct states, %.0fs, %s" % (name, r.distinct, r.wall, "ok" if r.ok else (r.violation or r.error)))
         zero = [k for k, v in r.coverage.items() if v[0] == 0 and k not in ("Terminating",)]
-        ctx.extra.setdefault("actions_never_taken", {})[sc["name"]] = zero
+        ctx.extra.setdefault("actions_never_taken", {})[name] = zero
         # 2. code -> spec: recorded executions (SC and software-TSO) validated step by step, property ghosts checked on them
         for tso in (0, 1):
             if len(ctx.violations) >= conc.MAXV:
@@ -76,14 +113,18 @@ def run_scenarios(ctx, comp, scenarios, nseeds, nsim, mc_timeout):
             runs, fails, pf = conc.run_batch(ctx, comp, exe, sc, tso, seeds, wd)
             conc.report_failures(ctx, comp, fails)
             if runs:
-                ctx.sample({"kind": "recorded execution of the real code (first events)", "scenario": sc["name"], "tso": tso, "seed": runs[0][0],
+                ctx.sample({"kind": "recorded execution of the real code (first events)", "scenario": name, "tso": tso, "seed": runs[0][0],
                             "events": [e for e in runs[0][1][:12]]})
             conc.validate(ctx, comp, sc, tso, runs, wd, "tv_%s_%d" % (sc["name"], tso))
-        # 3. spec -> code: TLC behaviours of the SC instance forced onto the real code (see note on TSO below)
-        if nsim and len(ctx.violations) < conc.MAXV:
-            conc.spec_to_code(ctx, comp, exe, sc, 0, nsim, wd)
-        log("  [conf] %s: traces validated so far %d, events %d, replays %d, violations %d" % (sc["name"], ctx.traces, ctx.events, ctx.replays, len(ctx.violations)))
-    shutil.rmtree(wd, ignore_errors=True)
+        # 3. spec -> code: TLC behaviours forced onto the real code: SC instance, and the TSO instance the runtime can execute
+        for c, tso, n in ((comp, 0, nsim), (RCL_PF, 1, max(4, nsim // 2))):
+            if nsim and len(ctx.violations) < conc.MAXV:
+                got = conc.spec_to_code(ctx, c, exe, sc, tso, n, wd)
+                if not got:          # TLC produced no behaviour (seen once on the overloaded machine): try again, and say so if it persists
+                    got = conc.spec_to_code(ctx, c, exe, sc, tso, n, wd)
+                if not got:
+                    ctx.notes.append("no TLC behaviour could be generated for scenario %s tso=%d (simulation failed to run): spec -> code replays skipped for it" % (name, tso))
+        log("  [conf] %s: traces validated so far %d, events %d, replays %d, violations %d" % (name, ctx.traces, ctx.events, ctx.replays, len(ctx.violations)))
     ctx.notes.append("TSO dimension: TLC explores the instance in which ALL updater stores (plain ones too) go through the store buffer "
                      "(TSO=TRUE, PlainBuf=TRUE).  The executed code cannot buffer compiler-generated plain stores: the runtime drains the "
                      "software store buffer before a plain store and the store is immediately visible; only the hooked rcu_assign_pointer / "
@@ -91,14 +132,15 @@ def run_scenarios(ctx, comp, scenarios, nseeds, nsim, mc_timeout):
                      "(TSO=FALSE) and recorded tso=1 traces against the TSO=TRUE, PlainBuf=FALSE instance of the same module (plain store = "
                      "wait for the own buffer to drain, then write memory), whose behaviours are behaviours of the full TSO instance with "
                      "the plain stores flushed at once; recorded flush events line up one to one.")
-    ctx.notes.append("spec -> code replays use behaviours of the SC instance only: under tso=1 the runtime drains eagerly when a thread "
-                     "ARRIVES at a plain store, which no decision list of the specification can reproduce; the TSO interleavings of the real "
-                     "code are covered by the recorded tso=1 runs (code -> spec) and by TLC.")
+    ctx.notes.append("spec -> code replays: behaviours of the SC instance and of the TSO=TRUE, PlainBuf=FALSE instance.  Under tso=1 the runtime "
+                     "drains when a thread ARRIVES at a plain store (earlier than the F:<thread> decision of the behaviour; the runtime then drops "
+                     "that decision), so a tso=1 replay may read different values than the TLC behaviour it was derived from; every replayed "
+                     "execution is validated as a trace of its own.  Behaviours with delayed plain stores are covered by TLC only.")
 
 
 def run(ctx):
     q = ctx.quick()
-    run_scenarios(ctx, RCL, QUICK if q else THOROUGH, nseeds=60 if q else 1500, nsim=24 if q else 400, mc_timeout=600 if q else 3000)
+    run_scenarios(ctx, RCL, QUICK if q else THOROUGH, nseeds=40 if q else 1500, nsim=16 if q else 400, mc_timeout=600 if q else 3000)
 
 
 def replay(ctx, path):
